@@ -31,7 +31,7 @@ Arguments mk_tbst {A}. Arguments core {A}. Arguments ti {A}.
 
 Record tcfg := mk_tcfg { tc : bcfg; maxage : N; reset_every_item : bool }.
 
-Inductive tev (A : Type) :=
+Inductive cev (A : Type) :=
 | Tick (dt : N)            (* time passes *)
 | Ev (e : bev A).          (* an event of the untimed machine, taking no time *)
 Arguments Tick {A}. Arguments Ev {A}.
@@ -41,7 +41,7 @@ Definition tinit {A} : tbst A := mk_tbst binit (mk_ti 0 0 [] None 0).
 (* the runtime may fire the timer: it is active and its expiry has been reached *)
 Definition fire_enabled {A} (s : tbst A) : bool := t_active (tm (core s)) && (twhen (ti s) <=? now (ti s)).
 
-Definition tstep {A} (c : tcfg) (s : tbst A) (te : tev A) : tbst A :=
+Definition tstep {A} (c : tcfg) (s : tbst A) (te : cev A) : tbst A :=
   let b := core s in
   let i := ti s in
   match te with
@@ -101,8 +101,8 @@ Definition tstep {A} (c : tcfg) (s : tbst A) (te : tev A) : tbst A :=
       end
   end.
 
-Definition trun_from {A} (c : tcfg) (s : tbst A) (tes : list (tev A)) : tbst A := fold_left (tstep c) tes s.
-Definition trun {A} (c : tcfg) (tes : list (tev A)) : tbst A := trun_from c tinit tes.
+Definition trun_from {A} (c : tcfg) (s : tbst A) (tes : list (cev A)) : tbst A := fold_left (tstep c) tes s.
+Definition trun {A} (c : tcfg) (tes : list (cev A)) : tbst A := trun_from c tinit tes.
 
 (* the instant the age of the pending batch is counted from: the Take of its first item, or the last failed
    age-limit commit after that *)
@@ -119,5 +119,5 @@ Definition timely_st {A} (lf lw : N) (s : tbst A) : bool :=
   (negb (t_active (tm (core s))) || (now (ti s) <=? twhen (ti s) + lf))
   && (negb (t_chan (tm (core s))) || (now (ti s) <=? fired_at (ti s) + lw)).
 
-Fixpoint timely_from {A} (lf lw : N) (c : tcfg) (s : tbst A) (tes : list (tev A)) : bool :=
+Fixpoint timely_from {A} (lf lw : N) (c : tcfg) (s : tbst A) (tes : list (cev A)) : bool :=
   timely_st lf lw s && match tes with [] => true | e :: r => timely_from lf lw c (tstep c s e) r end.
